@@ -6,7 +6,7 @@ from common import fbits, show_floats, parse_floats, outcome
 import optim_formulas, optim_cases
 
 PROP = 'C08'
-LEAN_TARGETS = ['Props.C08']
+LEAN_TARGETS = ['Props.C08', 'gensteps']      # gensteps: the definitions generated from the source on this run, executable
 REQUIRED_THEOREMS = ['Props.C08.sgd_refines', 'Props.C08.sgd_plain_refines', 'Props.C08.adam_refines',
                      'Props.C08.frozen_fixed_sgd', 'Props.C08.frozen_fixed_adam', 'Props.C08.params_independent_sgd',
                      # the store model (buffers with identities, Synap.OptimStore)
